@@ -24,6 +24,15 @@ def main():
     a = ap.parse_args()
     seed = int(os.environ.get("VERIF_SEED", "1"))
     pid = a.pid.upper()
+    if a.replay:
+        # the replay file usually lives in out/<pid>/, which a new run clears: keep a copy elsewhere first
+        import shutil
+        keep = os.path.join(vlib.ROOT, "out", "_replay", pid)
+        os.makedirs(keep, exist_ok=True)
+        dst = os.path.join(keep, os.path.basename(a.replay))
+        if os.path.abspath(a.replay) != dst:
+            shutil.copy(a.replay, dst)
+        a.replay = dst
     ctx = vlib.Ctx(pid, a.tier, seed)
     mod = importlib.import_module("checks." + pid.lower())
     rc = 0
